@@ -485,6 +485,31 @@ Section PackratThreads.
     - destruct (cstep_nomemo t cf Hm Hcf) as [Hn He]. destruct (IH _ Hn) as [IH1 IH2].
       split; [exact IH1|]. intros t0 e [[= <- <-]|Hin]; [exact He|eapply IH2; exact Hin].
   Qed.
+  (* ---------- schedules at the granularity of visible operations (what the replay harness drives) are schedules:
+       so everything proved for `exec` holds for the configurations `vtrace` goes through ---------- *)
+  Lemma exec_app s1 : forall s2 cf, exec (s1 ++ s2) cf = exec s2 (exec s1 cf).
+  Proof. induction s1 as [|t s IH]; intros s2 cf; simpl; [reflexivity|apply IH]. Qed.
+
+  Lemma vstep_exec fuel : forall t cf,
+    exists n, fst (vstep A O step A_eqb size entry cacheable memo_on fuel t cf) = exec (repeat t n) cf.
+  Proof.
+    induction fuel as [|f IH]; intros t cf; simpl; [exists 0; reflexivity|].
+    destruct (cstep t cf) as [cf' e] eqn:Ec.
+    assert (E1 : cf' = fst (cstep t cf)) by (rewrite Ec; reflexivity).
+    destruct e; try (exists 1; simpl; rewrite <- E1; reflexivity).
+    destruct (IH t cf') as [n Hn]. exists (S n). simpl. rewrite <- E1. exact Hn.
+  Qed.
+
+  Lemma vtrace_exec fuel sched : forall cf,
+    exists s, snd (vtrace A O step A_eqb size entry cacheable memo_on fuel sched cf) = exec s cf.
+  Proof.
+    induction sched as [|t s' IH]; intros cf; simpl; [exists []; reflexivity|].
+    destruct (vstep A O step A_eqb size entry cacheable memo_on fuel t cf) as [cf' e] eqn:Ev.
+    destruct (vstep_exec fuel t cf) as [n Hn]. rewrite Ev in Hn. simpl in Hn.
+    destruct (IH cf') as [s2 H2].
+    destruct (vtrace A O step A_eqb size entry cacheable memo_on fuel s' cf') as [tr cf''] eqn:Et. simpl in *.
+    exists (repeat t n ++ s2). rewrite exec_app, <- Hn. exact H2.
+  Qed.
 End PackratThreads.
 
 (* ================================================================================================
